@@ -3,3 +3,6 @@ import XPathV.Theorems.C12
 #print axioms XPathV.Theorems.C12.count_eq_length
 #print axioms XPathV.Theorems.C12.reverse_eq_reverse
 #print axioms XPathV.Theorems.C12.child_from_context
+#print axioms XPathV.Theorems.C12.pull_refines_sequence
+#print axioms XPathV.Theorems.C12.exhausted_stays_exhausted
+#print axioms XPathV.Theorems.C12.reported_node_and_counters
